@@ -41,35 +41,134 @@ Qed.
 Lemma fs_set_other f t c p : str_eqb p t = false -> fs_set f t c p = f p.
 Proof. intros E. unfold fs_set. rewrite E. reflexivity. Qed.
 
-Lemma crash_atomic_bytes f p t content f' :
-  save_state f p t content f' ->
-  str_eqb t p = false ->
-  f' p = f p \/ f' p = Some content.
+Lemma fs_set_same f t c : fs_set f t c t = c.
+Proof. unfold fs_set. rewrite str_eqb_refl. reflexivity. Qed.
+
+Lemma str_eqb_sym_false a b : str_eqb a b = false -> str_eqb b a = false.
 Proof.
-  intros HS Hne.
-  assert (Hne' : str_eqb p t = false).
-  { destruct (str_eqb p t) eqn:E; [|reflexivity]. apply str_eqb_eq in E. subst.
-    rewrite str_eqb_refl in Hne. discriminate. }
-  destruct HS as [|k Hk|].
-  - left. reflexivity.
-  - left. apply fs_set_other. exact Hne'.
-  - right. unfold fs_rename. rewrite Hne. rewrite str_eqb_refl.
-    unfold fs_set. rewrite str_eqb_refl. reflexivity.
+  intros H. destruct (str_eqb b a) eqn:E; [|reflexivity]. apply str_eqb_eq in E. subst.
+  rewrite str_eqb_refl in H. discriminate.
 Qed.
+
+Definition all_temp (pre : list N) : bool := forallb (fun s => s <? 3) pre.
+
+Lemma temp_full_cons full s r :
+  temp_full full (s :: r) =
+  if s =? 0 then temp_full false r else if s =? 1 then temp_full true r
+  else if s =? 2 then temp_full full r else false.
+Proof. destruct s as [|[[q|q|]|[q|q|]|]]; reflexivity. Qed.
+
+Lemma sstep_temp p t content f s : s <? 3 = true ->
+  sstep_fs p t content f s =
+  if s =? 0 then fs_set f t (Some []) else if s =? 1 then fs_set f t (Some content) else f.
+Proof. destruct s as [|[[q|q|]|[q|q|]|]]; try reflexivity; cbn; discriminate. Qed.
+
+Lemma temp_full_all pre : forall full, temp_full full pre = true -> all_temp pre = true.
+Proof.
+  induction pre as [|s r IH]; intros full H; [reflexivity|]. rewrite temp_full_cons in H.
+  cbn [all_temp forallb]. fold (all_temp r).
+  destruct (N.eqb_spec s 0) as [->|]; [rewrite (IH _ H); reflexivity|].
+  destruct (N.eqb_spec s 1) as [->|]; [rewrite (IH _ H); reflexivity|].
+  destruct (N.eqb_spec s 2) as [->|]; [rewrite (IH _ H); reflexivity|discriminate].
+Qed.
+
+Lemma all_temp_firstn n pre : all_temp pre = true -> all_temp (firstn n pre) = true.
+Proof.
+  revert n. induction pre as [|s r IH]; intros n H; destruct n; try reflexivity.
+  cbn [firstn all_temp forallb] in *. apply andb_true_iff in H. destruct H as [H1 H2].
+  rewrite H1. cbn. apply IH. exact H2.
+Qed.
+
+Section Protocol.
+  Variables (p t : str) (content : bytes).
+  Hypothesis Htp : str_eqb t p = false.
+
+  Lemma Hpt : str_eqb p t = false.
+  Proof. apply str_eqb_sym_false. exact Htp. Qed.
+
+  (* temp-file steps never touch the target *)
+  Lemma temp_steps_target pre : forall f, all_temp pre = true -> run_steps p t content f pre p = f p.
+  Proof.
+    induction pre as [|s r IH]; intros f H; [reflexivity|].
+    cbn [all_temp forallb] in H. apply andb_true_iff in H. destruct H as [Hs Hr].
+    cbn [run_steps fold_left]. fold (run_steps p t content (sstep_fs p t content f s) r).
+    rewrite (IH _ Hr). rewrite (sstep_temp p t content f s Hs).
+    destruct (s =? 0); [apply fs_set_other; exact Hpt|].
+    destruct (s =? 1); [apply fs_set_other; exact Hpt|reflexivity].
+  Qed.
+
+  (* ... and leave the temp file complete when temp_full says so *)
+  Lemma temp_steps_full pre : forall full f,
+    temp_full full pre = true -> (full = true -> f t = Some content) ->
+    run_steps p t content f pre t = Some content.
+  Proof.
+    induction pre as [|s r IH]; intros full f Hf Hc.
+    - cbn in *. apply Hc. exact Hf.
+    - pose proof (temp_full_all _ _ Hf) as Ha. cbn [all_temp forallb] in Ha.
+      apply andb_true_iff in Ha. destruct Ha as [Hs _].
+      rewrite temp_full_cons in Hf. cbn [run_steps fold_left].
+      fold (run_steps p t content (sstep_fs p t content f s) r). rewrite (sstep_temp p t content f s Hs).
+      destruct (s =? 0); [apply (IH false _ Hf); discriminate|].
+      destruct (s =? 1); [apply (IH true _ Hf); intros _; apply fs_set_same|].
+      destruct (s =? 2); [apply (IH full f Hf Hc)|discriminate].
+  Qed.
+
+  Lemma run_steps_app f l1 l2 :
+    run_steps p t content f (l1 ++ l2) = run_steps p t content (run_steps p t content f l1) l2.
+  Proof. unfold run_steps. apply fold_left_app. Qed.
+
+  Lemma crash_atomic_bytes steps f f' :
+    steps_safe steps = true ->
+    save_state steps f p t content f' ->
+    f' p = f p \/ f' p = Some content.
+  Proof.
+    unfold steps_safe. intros Hs HS.
+    destruct (rev steps) as [|l rpre] eqn:R; [discriminate|].
+    apply andb_true_iff in Hs. destruct Hs as [Hl Hs]. apply N.eqb_eq in Hl. subst l.
+    assert (Hsteps : steps = rev rpre ++ [4]).
+    { rewrite <- (rev_involutive steps), R. reflexivity. }
+    set (pre := rev rpre) in *. pose proof (temp_full_all pre false Hs) as Hall.
+    assert (Hlen : length steps = S (length pre)) by (rewrite Hsteps, app_length; cbn; lia).
+    destruct HS as [n|n k Hn Hk].
+    - destruct (Nat.le_gt_cases n (length pre)) as [Hle|Hgt].
+      + left. rewrite Hsteps, firstn_app. replace (n - length pre)%nat with 0%nat by lia.
+        cbn [firstn]. rewrite app_nil_r. apply temp_steps_target. apply all_temp_firstn. exact Hall.
+      + right. rewrite firstn_all2 by lia. rewrite Hsteps, run_steps_app.
+        cbn [run_steps fold_left sstep_fs]. unfold fs_rename. rewrite Htp, str_eqb_refl.
+        apply (temp_steps_full pre false f Hs). discriminate.
+    - left. assert (Hlt : (n < length pre)%nat).
+      { assert (n < length steps)%nat by (apply nth_error_Some; rewrite Hn; discriminate).
+        destruct (Nat.eq_dec n (length pre)) as [->|]; [|lia].
+        rewrite Hsteps, nth_error_app2, Nat.sub_diag in Hn by lia. discriminate. }
+      rewrite fs_set_other by exact Hpt.
+      rewrite Hsteps, firstn_app. replace (n - length pre)%nat with 0%nat by lia.
+      cbn [firstn]. rewrite app_nil_r. apply temp_steps_target. apply all_temp_firstn. exact Hall.
+  Qed.
+End Protocol.
 
 (* the old rule (Path::with_extension) is NOT safe: a path that already has the temp extension *)
 Definition tmp_s : str := [116; 109; 112].
 Lemma crash_refuted_with_extension :
   exists (f : fs) (p : path) (content : bytes) (f' : fs),
-    save_state f (render p) (render (temp_path_with 0 tmp_s p)) content f'
+    save_state [0; 1; 4] f (render p) (render (temp_path_with 0 tmp_s p)) content f'
     /\ f' (render p) <> f (render p) /\ f' (render p) <> Some content.
 Proof.
   exists (fun q => if str_eqb q [115; 46; 116; 109; 112] then Some [1; 2; 3] else None),
-         (P [115] (Some tmp_s)), [7; 8; 9; 10],
-         (fs_set (fun q => if str_eqb q [115; 46; 116; 109; 112] then Some [1; 2; 3] else None)
-                 [115; 46; 116; 109; 112] (Some (firstn 2 [7; 8; 9; 10]))).
-  split.
-  - apply (ss_partial _ _ _ _ 2%nat). cbn. lia.
+         (P [115] (Some tmp_s)), [7; 8; 9; 10]. eexists. split.
+  - apply (ss_partial _ _ _ _ _ 1%nat 2%nat); [reflexivity|cbn; lia].
+  - split; vm_compute; discriminate.
+Qed.
+
+(* a protocol that unlinks the target before the rename is NOT safe even with a proper sibling temp
+   file: between the two steps the path holds neither snapshot *)
+Lemma crash_refuted_unlink_first :
+  exists (f : fs) (p t : str) (content : bytes) (f' : fs),
+    str_eqb t p = false /\ save_state [0; 1; 3; 4] f p t content f'
+    /\ f' p <> f p /\ f' p <> Some content.
+Proof.
+  exists (fun q => if str_eqb q [115] then Some [1; 2; 3] else None), [115], [115; 46; 116], [7; 8; 9; 10].
+  eexists. split; [reflexivity|]. split.
+  - apply (ss_between _ _ _ _ _ 3%nat).
   - split; vm_compute; discriminate.
 Qed.
 
@@ -145,12 +244,14 @@ Section CodecFacts.
   Qed.
 
   (* crash atomicity at the level of what `load` returns *)
-  Lemma crash_atomic_load f p content f' :
-    save_state f (render p) (render (temp_path p)) content f' ->
+  Lemma crash_atomic_load steps f p content f' :
+    steps_safe steps = true ->
+    save_state steps f (render p) (render (temp_path p)) content f' ->
     load snap deser zd load_v2 f' (render p) = load snap deser zd load_v2 f (render p)
     \/ load snap deser zd load_v2 f' (render p) = load_bytes snap deser zd load_v2 content.
   Proof.
-    intros HS. destruct (crash_atomic_bytes _ _ _ _ _ HS (temp_is_sibling p)) as [E|E];
+    intros Hs HS.
+    destruct (crash_atomic_bytes _ _ _ (temp_is_sibling p) steps f f' Hs HS) as [E|E];
       unfold load; rewrite E; [left|right]; reflexivity.
   Qed.
 End CodecFacts.
